@@ -53,6 +53,35 @@ Qed.
 Lemma positions_from_ge a ops : forall k p, In p (positions_from a ops k) -> k <= p.
 Proof. intros k p H. apply positions_from_spec in H. destruct H as [j [H _]]. lia. Qed.
 
+(* ---------- the members map of NewMembershipValidator ---------- *)
+Definition members_list (a : N) (m : members) : list N :=
+  match members_get a m with Some ps => ps | None => [] end.
+
+Lemma members_append_list a b p m :
+  members_list a (members_append b p m) =
+  if b =? a then members_list a m ++ [p] else members_list a m.
+Proof.
+  unfold members_list. induction m as [|[c ps] t IH]; cbn [members_append members_get].
+  - destruct (b =? a); reflexivity.
+  - destruct (N.eqb_spec c b) as [Hcb|Hcb]; cbn [members_get].
+    + subst c. destruct (b =? a); reflexivity.
+    + destruct (N.eqb_spec c a) as [Hca|Hca].
+      * subst c. apply N.eqb_neq in Hcb. rewrite N.eqb_sym in Hcb. rewrite Hcb. reflexivity.
+      * exact IH.
+Qed.
+
+Lemma members_from_list a ops : forall i m,
+  members_list a (members_from ops i m) = members_list a m ++ positions_from a ops i.
+Proof.
+  induction ops as [|o t IH]; intros i m; cbn [members_from positions_from].
+  - now rewrite app_nil_r.
+  - rewrite IH, members_append_list. destruct (o =? a); [now rewrite <- app_assoc | reflexivity].
+Qed.
+
+(* the map holds, for every address, exactly the positions of its seats, in seat order *)
+Lemma new_validator_list a ops : members_list a (new_validator ops) = positions a ops.
+Proof. unfold new_validator, positions. now rewrite members_from_list. Qed.
+
 Section WithOracle.
   Variable addr_of : N -> N.
 
@@ -347,7 +376,129 @@ Section WithOracle.
     unfold spec_ok. rewrite H1, H2, H3, H4.
     destruct (admission addr_of s x m); try reflexivity. now elim Hnm.
   Qed.
+
+  (* ---------- the validator has no memory ---------- *)
+  (* a call leaves the validator object as it was ... *)
+  Lemma validator_call_state mv idx key : fst (validator_call addr_of mv idx key) = mv.
+  Proof. reflexivity. Qed.
+
+  (* ... and on the object built by NewMembershipValidator it answers the pure function *)
+  Lemma validator_call_pure ops idx key :
+    snd (validator_call addr_of (new_validator ops) idx key) = valid_membership addr_of ops idx key.
+  Proof.
+    unfold validator_call, valid_membership. cbn [snd].
+    rewrite <- (new_validator_list (addr_of key) ops). unfold members_list.
+    destruct (members_get (addr_of key) (new_validator ops)) as [[|p t]|]; reflexivity.
+  Qed.
+
+  (* history independence: the answers of ANY history of calls on one shared validator are the
+     map of the pure function over the calls *)
+  Lemma validator_history_independent ops : forall calls,
+    validator_run addr_of (new_validator ops) calls =
+    map (fun c => valid_membership addr_of ops (fst c) (snd c)) calls.
+  Proof.
+    induction calls as [|[idx key] t IH]; [reflexivity|].
+    cbn [validator_run map fst snd].
+    pose proof (validator_call_pure ops idx key) as Hp.
+    pose proof (validator_call_state (new_validator ops) idx key) as Hs.
+    destruct (validator_call addr_of (new_validator ops) idx key) as [mv' b].
+    cbn [fst snd] in Hp, Hs. subst mv' b. now rewrite IH.
+  Qed.
+
+  (* the same, per call: whatever was validated before and after it (in particular: any
+     interleaving of the member goroutines' calls, each call taken as one atomic step) *)
+  Lemma validator_answer_independent ops pre post idx key :
+    nth_error (validator_run addr_of (new_validator ops) (pre ++ (idx, key) :: post)) (length pre)
+    = Some (valid_membership addr_of ops idx key).
+  Proof.
+    rewrite validator_history_independent, map_app. cbn [map fst snd].
+    rewrite nth_error_app2; rewrite map_length; [|lia].
+    now rewrite Nat.sub_diag.
+  Qed.
+
+  (* no call of any history accepts a foreign index *)
+  Lemma validator_history_sound ops calls idx key :
+    (length ops <= 255)%nat -> idx < 256 ->
+    In ((idx, key), true) (combine calls (validator_run addr_of (new_validator ops) calls)) ->
+    holds_index ops idx (addr_of key).
+  Proof.
+    intros Hlen Hidx Hin. rewrite validator_history_independent in Hin.
+    apply valid_membership_holds_index; try assumption.
+    revert Hin. induction calls as [|[i k] t IH]; cbn [map combine In fst snd]; [intros []|].
+    intros [He|Ht]; [|now apply IH]. injection He as -> -> Hv. exact Hv.
+  Qed.
+
+  (* at the steps that keep no state between messages (all but the done check; the follower
+     stops at its first proposal) the outcome of a message does not depend on the earlier ones *)
+  Lemma run_history_independent s x : 
+    kind_of s <> KDone -> kind_of s <> KFollower -> forall msgs,
+    run addr_of s x msgs = map (fun m => (m, admission addr_of s x m)) msgs.
+  Proof.
+    intros Hd Hf. induction msgs as [|m t IH]; [reflexivity|]. cbn [run map].
+    assert (Hafter : after s x m (admission addr_of s x m) = x).
+    { unfold after. destruct (kind_of s); try reflexivity. now elim Hd. }
+    rewrite Hafter, IH.
+    destruct (admission addr_of s x m) eqn:Ha; try reflexivity.
+    exfalso. unfold admission in Ha.
+    destruct (kind_of s); destruct (m_pay m); try discriminate;
+      try (now elim Hf);
+      repeat match type of Ha with
+             | (if ?c then _ else _) = _ => destruct c; try discriminate
+             end.
+  Qed.
 End WithOracle.
+
+(* ---------- the executable history specs ---------- *)
+Lemma hist_spec_ok_sound ops tab calls :
+  hist_spec_ok ops tab calls = true ->
+  forall c, In c calls -> 0 < v_acc c -> holds_index ops (v_idx c) (tab_addr tab (v_key c)).
+Proof.
+  unfold hist_spec_ok. rewrite forallb_forall. intros H c Hin Hacc.
+  specialize (H c Hin). apply orb_true_iff in H. destruct H as [H|H].
+  - apply N.eqb_eq in H. lia.
+  - now apply holds_index_b_true.
+Qed.
+
+(* observations that agree with the model (every single answer is the validator's) pass it *)
+Lemma hist_agree_passes_spec ops tab : forall calls,
+  (length ops <= 255)%nat ->
+  (forall c, In c calls -> v_idx c < 256) ->
+  hist_agree (validator_run (tab_addr tab) (new_validator ops)
+                            (map (fun c => (v_idx c, v_key c)) calls)) calls = true ->
+  hist_spec_ok ops tab calls = true.
+Proof.
+  intros calls Hlen. rewrite validator_history_independent. unfold hist_spec_ok.
+  induction calls as [|c t IH]; intros Hidx Hag; [reflexivity|].
+  cbn [map hist_agree fst snd forallb] in *.
+  apply andb_true_iff in Hag. destruct Hag as [Hc Ht].
+  rewrite IH; [|intros c' Hc'; apply Hidx; now right|exact Ht]. rewrite andb_true_r.
+  destruct (valid_membership (tab_addr tab) ops (v_idx c) (v_key c)) eqn:Hv.
+  - apply valid_membership_holds_index in Hv; [|assumption|apply Hidx; now left].
+    apply holds_index_b_true in Hv. rewrite Hv. apply orb_true_r.
+  - rewrite Hc. reflexivity.
+Qed.
+
+Lemma run_spec_ok_sound r :
+  run_spec_ok r = true ->
+  forall m o, In (m, o) (r_msgs r) -> acted o = true ->
+  holds_index (x_ops (r_ctx r)) (m_idx m) (tab_addr (r_tab r) (m_key m)) /\
+  (documents_self (r_step r) = true -> ~ In (m_idx m) (x_self (r_ctx r))) /\
+  same_session (r_ctx r) m = true /\
+  excluded_at (r_step r) (r_ctx r) (m_idx m) = false.
+Proof.
+  unfold run_spec_ok. rewrite forallb_forall. intros H m o Hin Hact.
+  specialize (H (m, o) Hin). cbn [fst snd] in H.
+  now apply spec_ok_sound with (o := o).
+Qed.
+
+(* hypotheses are satisfiable / the object is exercised: one validator of a group with a
+   two-seat operator, a history mixing owners, spoofers, an outsider, index 0 *)
+Example history_on_one_validator :
+  validator_run (fun k => k) (new_validator [10; 20; 20; 30])
+                [(1, 10); (1, 20); (2, 20); (3, 20); (1, 20); (4, 99); (0, 30); (1, 10)]
+  = [true; false; true; true; false; false; false; true]
+  /\ new_validator [10; 20; 20; 30] = [(10, [0]); (20, [1; 2]); (30, [3])].
+Proof. vm_compute. split; reflexivity. Qed.
 
 (* hypotheses are satisfiable: an operator holding seats 2 and 3 of a 5-seat group is admitted
    with either of its indexes and with no other *)
